@@ -60,7 +60,7 @@ pub fn judge(rep: &mut Report, c: &Case) {
                 let midw = if k == 0 { Some(w.clone()) } else { apply_all(&pr, &w).ok().and_then(|mut v| v.pop()) };
                 if let Some(mw) = midw {
                     if let Some(v) = check_word(&mw) { cause = format!("C08-{}", v.split('(').next().unwrap_or("")) }
-                    else if let Ok(t) = render(&mw) { match parse_word(&t) { Ok(back) if back == mw => {}, _ => cause = "C09-roundtrip-of-intermediate".into() } }
+                    else if let Ok(t) = render(&mw) { match parse_word(&t) { Ok(back) if back == mw => {}, _ => cause = if crate::c09::click_ambiguous(&mw) { "C09-stop-next-to-a-click-in-the-intermediate".into() } else { "C09-roundtrip-of-intermediate".into() } } }
                 }
             }
             let obs = match &staged { Ok(s) => s.clone(), Err(e) => e.tag() };
